@@ -14,7 +14,7 @@ MIN_OBLIGATIONS = 500
 EXPLANATION = ("SPACES AND COMMENTS, ANY AMOUNT: the real Scanner.scan is executed on statement texts in which every gap where the statement allows white space "
                "(indentation incl. blank lines, after the mnemonic / size suffix, inside brackets, around operators and commas, trailing) holds a run of SYMBOLIC length, "
                "and `;` / `/* */` comments hold ANY text: the token list (types and texts) is proved to be the one of the densely written statement (+ a COMMENT token the "
-               "parser is proved to drop).  18 statement forms: 7 operand shapes, size suffix, implied, data directive, label, assignment, *=, two statements with blank "
+               "parser is proved to drop).  24 statement forms (21 with spaces / comments, 3 in any letter case): 7 operand shapes, size suffix, implied, data directive, label, assignment, *=, two statements with blank "
                "lines, end-of-line / full-line / after-operand `;` comments, block comment.  Scanner loops are cut at quantified invariants (every position consumed so far "
                "matches), the driver and lex_expression loops are unrolled.  Single-run facts proved on the real code: parse_opcode lower-cases the size suffix and the index registers (outer and inside the "
                "parentheses) for token values in EITHER case (symbolic letters) and the addressing mode does not depend on the case; OpcodeNode "
@@ -22,7 +22,7 @@ EXPLANATION = ("SPACES AND COMMENTS, ANY AMOUNT: the real Scanner.scan is execut
                "whitespace runs and both comment forms are skipped by the scanner with correct bookkeeping (C15/C17 contracts).  That ANY composition of "
                "the listed presentation changes leaves bytes, offsets and symbols unchanged is the bounded metamorphic part, through the real pipeline.")
 TRUSTED = ["the scanner contracts of C15/C17 (whitespace / comment skipping)"]
-ASSUMPTIONS = ["the space/comment obligations are stated per statement FORM (18 forms with fixed literal operands); that other operands / mnemonics behave alike is covered by the "
+ASSUMPTIONS = ["the space/comment obligations are stated per statement FORM (24 forms with fixed literal operands); that other operands / mnemonics behave alike is covered by the "
                "bounded re-layout sweep; block-comment text is any text without `*`",
                "composition of single-run facts to full layout independence is argued, not machine-checked",
                "bounded: every listed presentation change applied at every applicable position of generated programs and sample sources, outputs and symbols compared"]
@@ -91,6 +91,9 @@ SPACED = {
     "name:": (["_n", "name", ":", "_t"], [("LABEL", "name")]),
     "x = 0x10 + 2": (["_n", "x", "_n", "=", "_n", "0x10", "_n", "+", "_n", "2", "_t"], [("IDENTIFIER", "x"), ("EQUAL", "="), ("NUMBER", "0x10"), ("OPERATOR", "+"), ("NUMBER", "2")]),
     "*= 0x8000": (["_n", "*=", "_n", "0x8000", "_t"], [("STAR_EQ", "*="), ("NUMBER", "0x8000")]),
+    "m(1, two)": (["_n", "m", "(", "_n", "1", "_n", ",", "_n", "two", "_n", ")", "_t"], [("IDENTIFIER", "m"), ("LPAREN", "("), ("NUMBER", "1"), ("COMMA", ","), ("IDENTIFIER", "two"), ("RPAREN", ")")]),
+    "} else {": (["_n", "}", "_n", "else", "_n", "{", "_t"], [("RBRACE", "}"), ("IDENTIFIER", "else"), ("LBRACE", "{")]),
+    ".text 'a  b'": (["_n", ".", "text", "_n", "'a  b'", "_t"], [("KEYWORD", "text"), ("QUOTED_STRING", "'a  b'")]),
     "two statements, blank lines between": (["_n", "lda", "__", "#", "_", "0x12", "_t", "\n", "_n", "rts", "_t"],
                                             [("OPCODE", "lda"), ("SHARP", "#"), ("NUMBER", "0x12"), ("OPCODE_NAKED", "rts")]),
     "end-of-line ; comment (any text)": (["_n", "nop", "_t", ";", ";c", "\n", "_n", "rts", "_t"], [("OPCODE_NAKED", "nop"), ("COMMENT", None), ("OPCODE_NAKED", "rts")]),
@@ -120,6 +123,8 @@ def shape_spaced(name):
         for k, x in enumerate(pieces):
             if x == "_n":
                 ps.append(("run", f"indent{k}", " \t\n", 0))
+            elif x == "__n":
+                ps.append(("run", f"indent{k}", " \t\n", 1))
             elif x == "_t":
                 ps.append(("run", f"trailing{k}", " \t", 0))
             elif x == "_":
